@@ -374,17 +374,6 @@ def judge_float_place(shapes, box, cb, impl, check_clear=True):
     px, py, mt, mb, ml, mr, bw, bh, float_, clear, kind = box
     mw, mh = bw + ml + mr, bh + mt + mb
     cx, cw, rtl = cb
-    if bh == 0:
-        # a float whose border box is empty: rules 4, 5 and "at its side, inside the containing block when it
-        # fits"; that it may lie over earlier floats is the known finding zero-height-float-ignores-other-floats
-        if y < py:
-            return f'float top {y} higher than its static position {py}'
-        if shapes and y < shapes[-1][1]:
-            return f'float top {y} higher than the previous float top {shapes[-1][1]}'
-        want = cx if float_ == 'left' else cx + cw - mw
-        if x != want:
-            return f'float without border-box height at x={x}, expected the {float_} edge of its containing block ({want})'
-        return None
     if any(s[3] <= 0 or s[2] < 0 for s in shapes) or mh <= 0 or mw < 0:
         return None            # degenerate geometry: the clauses below are about boxes with area
     for s in shapes:
@@ -413,8 +402,6 @@ def judge_avoid(shapes, box, cb, outer, impl):
     if impl.startswith('err:'):
         return f'avoid_collisions raised {impl}'
     px, py, mt, mb, ml, mr, bw, bh, float_, clear, kind = box
-    if float_ != 'none' and bh == 0:
-        return None
     x, y, avail = [F(v) for v in sx.loads_line(impl)]
     w = bw + ml + mr if outer else bw
     h = bh + mt + mb if outer else bh
@@ -444,7 +431,7 @@ def model_tags(prop, lines):
 
 
 AVOID_BRANCHES = (
-    ['early-return', 'assert-fails'] +
+    ['assert-fails'] +
     [f'moves{k} {e} {p} {o}' for k in range(4) for e in ('free', 'fits', 'gave-up')
      for p in ('left-bound', 'rtl-line', 'rtl-box') for o in ('outer', 'inner')
      if not (e == 'free' and k > 0 and False)])
@@ -457,8 +444,7 @@ class C11(PropCheck):
     trusted_base = (
         'modelled, not verified: layout/float.py avoid_collisions / find_float_position / get_clearance / float_width, '
         'layout/absolute.py absolute_width / absolute_height / absolute_replaced / absolute_block translation, '
-        'layout/block.py relative_positioning, the float-list plumbing of get_next_linebox / '
-        'finish_block_formatting_context, layout_fixed_boxes (hand transcriptions in Model/Floats.lean, '
+        'layout/block.py relative_positioning, the restarts of get_next_linebox, layout_fixed_boxes / make_page (hand transcriptions in Model/Floats.lean, '
         'Model/Absolute.lean, Model/FloatFlow.lean, Model/FixedPages.lean)',
         'mock boxes: real box classes with dict styles and Fraction used values; shrink_to_fit is the real function '
         'over patched min/max-content widths',
@@ -484,6 +470,7 @@ class C11(PropCheck):
         c11_docs.sec_abs_docs(run)
         c11_docs.sec_fixed_docs(run)
         c11_docs.sec_fixed_area_docs(run)
+        c11_docs.sec_fixed_fragments(run)
         c11_docs.sec_wide_docs(run)
 
     def sec_float_seq(self, run):
@@ -711,7 +698,7 @@ class C11(PropCheck):
             return judge_rel(meta, impl)
         if kind == 'floatwidth':
             return judge_float_width(meta['args'], impl)
-        if kind in ('float-doc', 'abs-doc', 'fixed-doc', 'wide-doc', 'regression', 'fixed-area-doc'):
+        if kind in ('float-doc', 'abs-doc', 'fixed-doc', 'wide-doc', 'regression', 'fixed-area-doc', 'fixed-fragment'):
             return c11_docs.judge(meta, impl, d.get('line'))
         return None
 
@@ -731,7 +718,7 @@ class C11(PropCheck):
         meta = inp.get('meta') or {}
         if meta.get('kind') == 'regression':
             return c11_docs.regression_violation(meta['id'])
-        if meta.get('kind') in ('float-doc', 'abs-doc', 'fixed-doc', 'fixed-late', 'wide-doc', 'fixed-area-doc'):
+        if meta.get('kind') in ('float-doc', 'abs-doc', 'fixed-doc', 'fixed-late', 'wide-doc', 'fixed-area-doc', 'fixed-fragment'):
             return c11_docs.replay_html({'kind': meta['kind'], 'doc': meta['doc']})
         if meta.get('kind'):
             meta = unjson(meta)
@@ -923,14 +910,13 @@ PROP = C11()
 MANIFEST = {
     'design_ref': 'DESIGN.md §4 C11',
     'technique': 'Lean 4 theorems over hand-written models of float.py (avoid_collisions, find_float_position, '
-                 'get_clearance, float_width under its min/max wrapper, the front and placement parts of float_layout '
-                 'with the two float lists it reads: context.excluded_shapes and the top of '
-                 'context._excluded_shapes_lists), inline.py (get_next_linebox loop with its restarts, text_align, floats '
+                 'get_clearance, float_width under its min/max wrapper, the front and placement parts of float_layout), '
+                 'inline.py (get_next_linebox loop with its restarts, text_align, floats '
                  'met inside a line), block.py (clearance from the collapsed margin, BFC roots / replaced blocks / tables '
                  'next to floats, relative_positioning), absolute.py (absolute_width with its min/max wrapper, '
                  'absolute_height, absolute_replaced, absolute_block translation, containing-block choice) and the '
                  'fixed-box plumbing of make_page / layout_fixed_boxes (fixed boxes nested in fixed boxes, pages whose '
-                 'page areas differ); the three arithmetic tests of avoid_collisions are regenerated from the source (AST) '
+                 'page areas differ, content cut at the page bottom by absolute_block / _in_flow_layout); the three arithmetic tests of avoid_collisions are regenerated from the source (AST) '
                  'on every run; exact executable correspondence with the real functions (mock boxes, Fractions) and with '
                  'rendered documents; a verified trace checker (checkEvents, proved sound, complete on floats and '
                  'accepting everything the model produces) run on rendered wide-grammar documents whose lines are broken '
@@ -938,16 +924,19 @@ MANIFEST = {
     'text': 'Unbounded theorems: the collision test is open-interval overlap; the avoidance loop terminates within '
             'len(shapes)+1 iterations; a box that fits the returned width overlaps no float, lies inside the containing '
             'block and is not above the request; every skipped position was blocked; the loop never gives up among floats '
-            'with area; float side / top rules for every float (empty border boxes included); after any sequence of '
+            'with area; float side / top rules and no overlap for every float whose margin box has area (empty border boxes '
+            'included); after any sequence of '
             'placements — and after any document of block-level floats, floats met inside the lines of paragraphs (lines '
             'started again included), BFC roots, images, tables and blocks with collapsing margins laid out by the flow '
-            'model — all the floats are pairwise disjoint with tops in document order, and the verified checker accepts '
-            'them; clearance is the least sufficient amount and is added to the collapsed position; a float met in a line '
+            'model — the reported floats are exactly the float list of the context, pairwise disjoint with tops in document '
+            'order, and the verified checker accepts them; clearance is the least sufficient amount and is added to the collapsed position; a float met in a line '
             'is never above the line, and after a deferred float every float of the line is deferred; get_next_linebox '
             'terminates; the used width of a float respects min/max-width and an auto-width float leaves room for its own '
             'margins, borders and paddings; the containing block is the nearest positioned ancestor else the page; a '
             'collected fixed box is laid out on every page, and every fixed box drawn on a page — nested ones included — is '
-            'placed against the area of that page; the absolute constraint equations (CSS 2.1 10.3.7 / 10.6.4 / 10.3.8 / '
+            'placed against the area of that page; a fixed box repeated on another page holds all its content, and the same '
+            'content on its own page when that ends above the page bottom; the containing block of the absolute children of '
+            'an absolutely positioned box is its final padding box; the absolute constraint equations (CSS 2.1 10.3.7 / 10.6.4 / 10.3.8 / '
             '10.6.5) for every auto pattern in ltr and rtl without exception, static positions, centring, shrink-to-fit, '
             'min/max re-entry; absolute_replaced total with exact halves; relative positioning is a translation by the '
             'CSS 2.1 offset and the identity elsewhere.',
@@ -955,13 +944,11 @@ MANIFEST = {
             'AST translator of the three float tests, mock boxes. Partial: the content of a line (Pango) is a parameter of '
             'the model (one word or one inline-block per line); multi-word lines are covered by the trace checker only. '
             'Float fragmentation across pages belongs to C01. Theorems with explicit hypotheses (witnesses in '
-            'Witness/C11.lean, six known findings): float_no_overlap / float_place_invariants need a non-empty border box '
-            '(zero-height-float-ignores-other-floats); the flow theorems hold for the whole float list, which after a '
-            'restarted line also holds the floats of the abandoned pass (inline-float-laid-out-twice: the reported floats '
-            'are then not as far to their side as they could be); fixed_on_every_page excludes fixed boxes collected late '
-            '(fixed-in-absolute-not-repeated); generators avoid min/max-height on containing blocks '
-            '(abs-cb-height-before-min-max) and fixed boxes whose content crosses the page bottom '
-            '(fixed-box-fragmented-on-own-page, no model: fragmentation); overlap checks skip shifted tall lines '
-            '(tall-line-aligned-in-strut-band). Eight repaired findings are regression theorems (Witness/C11.lean) and '
+            'Witness/C11.lean, four known findings): cb_height_of_relative_box_partial (abs-cb-height-before-min-max: a '
+            'relative block lays its absolute children out before min/max-height; modelled, generated and compared), '
+            'fixed_same_content_partial (fixed-box-fragmented-on-own-page: content cut at the page bottom on the page of '
+            'origin only; modelled by fixedKept and compared in section fixed-fragments), fixed_on_every_page excludes fixed '
+            'boxes collected late (fixed-in-absolute-not-repeated); overlap checks skip shifted tall lines '
+            '(tall-line-aligned-in-strut-band). Ten repaired findings are regression theorems (Witness/C11.lean) and '
             'regression cases (section regressions).',
 }
